@@ -8,7 +8,7 @@
 #include <string.h>
 #include "mla.h"
 
-#define MAXSLOT 8
+#define MAXSLOT 128
 typedef struct {
   uint8_t *data; size_t len, cap;
   long sched[16]; int nsched, i;
